@@ -180,6 +180,10 @@ func (r *Run) callVF(caller *frame, pos token.Pos, fn *ssa.Function, args []Valu
 		return mkBool(!st.writer && st.readers == 0)
 	case "DeepEqual":
 		return r.deepEqual(args[0], args[1], 0)
+	case "CanonEqual":
+		r.canon = true
+		defer func() { r.canon = false }()
+		return r.deepEqual(args[0], args[1], 0)
 	case "Observe":
 		return nil
 	case "AllSchedules":
